@@ -518,7 +518,10 @@ impl<'a, T: std::fmt::Debug> WaitingState<'a, T> {
             .iter()
             .position(|s| self.is_corresponding_release(&s.event))
             .unwrap_or(queued.len());
-        let queued_while_held = || queued.iter().take(num_queued_while_held);
+        let queued_while_held = || {
+            (queued.iter().take(num_queued_while_held))
+                .filter(is_input_key_event as fn(&&Queued) -> bool)
+        };
         match cfg {
             HoldTapConfig::Default => (),
             HoldTapConfig::HoldOnOtherKeyPress => {
@@ -1010,7 +1013,15 @@ impl OneShotState {
 ///
 /// Events can be retrieved by iterating over this struct and calling [Queued::event].
 #[derive(Clone)]
-pub struct QueuedIter<'a>(core::iter::Take<arraydeque::Iter<'a, Queued>>);
+pub struct QueuedIter<'a>(
+    core::iter::Filter<core::iter::Take<arraydeque::Iter<'a, Queued>>, fn(&&'a Queued) -> bool>,
+);
+
+/// Events of the first row are input keys. The other rows hold virtual keys, whose events are
+/// produced by actions and are not "another key" for a tap-hold decision.
+fn is_input_key_event(q: &&Queued) -> bool {
+    q.event.coord().0 == 0
+}
 
 impl<'a> Iterator for QueuedIter<'a> {
     type Item = &'a Queued;
